@@ -1,18 +1,18 @@
 package main
 
 import (
-	"io"
-	"errors"
-	"sync/atomic"
 	"bufio"
 	"bytes"
 	"context"
+	"errors"
 	"fmt"
+	"io"
 	"math/rand"
 	"os"
 	"path/filepath"
 	"sort"
 	"strings"
+	"sync/atomic"
 	"time"
 
 	"github.com/evergreen-ci/birch"
